@@ -759,6 +759,28 @@ def rule_wrapped(repo, rep):
   rep.floor('calls through the preprocessor', n, 2)
 
 
+def rule_formed_precision(repo, rep):
+  R = 'R-INTERP:indicators-keep-the-precision-of-the-points'
+  rep.rule(R, 'check_input, interpreted with default options on float data '
+           'given formed and on integer indicators whose preprocessor yields '
+           'float points, returns the points without a further dtype '
+           'conversion: the dtype decision is taken on the FORMED data, so '
+           'float32 points reached through indicators are processed in the '
+           'same precision as the same points passed directly')
+  from . import c06b
+  f = repo.get_func('_util.check_input')
+  bad, why = c06b.float_data_recast(repo)
+  key = '_util.check_input:float-data-not-recast'
+  if bad is None:
+    rep.unknown(R, key, site(f) if f else '', why)
+  elif bad:
+    rep.refuted(R, key, site(f), why + ': indicators + preprocessor and '
+                'formed data no longer give the same fitted model for '
+                'float32 / float16 points')
+  else:
+    rep.derived(R, key, site(f), sample=dict(rule=R, detail=why))
+
+
 def check(repo, rep, tier):
   c06.rule_taint(repo, rep, labels=False)
   rule_routing(repo, rep)
@@ -768,6 +790,7 @@ def check(repo, rep, tier):
   # the preprocessor is not consulted for it; every other input is rejected
   from . import c06b
   c06b.rule_validation_table(repo, rep)
+  rule_formed_precision(repo, rep)
   rule_slot_order(repo, rep)
   rule_indexer_permissive(repo, rep)
   # (error wrapping is decided by R-INTERP:tuple-formation: an exception of
